@@ -80,11 +80,15 @@ def main():
     meta["ran"].append(f"demo in {pkgdir}/ on the clean tree -> {'pass' if meta['demo_passes_without_patch'] else 'FAIL'}")
     notes = os.path.join(mdir, "notes.md")
     meta["needs_to_manifest"] = open(notes).read()[:1500] if os.path.exists(notes) else ""
+    oldmeta = os.path.join(mdir, "meta.json")
+    if not meta["needs_to_manifest"] and os.path.exists(oldmeta):   # a refresh run on seeded/<name>/ itself
+        meta["needs_to_manifest"] = json.load(open(oldmeta)).get("needs_to_manifest", "")
     meta["caught_by"] = [p for p, r in meta["checks"].items() if r["rc"] != 0 and r["violation_line"]]
     dst = os.path.join(ROOT, "seeded", name)
     os.makedirs(dst, exist_ok=True)
-    shutil.copy(patch, os.path.join(dst, "patch.diff"))
-    shutil.copy(demo, os.path.join(dst, "demo_test.go"))
+    if os.path.abspath(mdir) != os.path.abspath(dst):
+        shutil.copy(patch, os.path.join(dst, "patch.diff"))
+        shutil.copy(demo, os.path.join(dst, "demo_test.go"))
     json.dump(meta, open(os.path.join(dst, "meta.json"), "w"), indent=1)
     ok = meta["baseline_with_patch_passes"] and meta["demo_fails_with_patch"] and meta["demo_passes_without_patch"]
     print(json.dumps({"name": name, "valid_mutant": ok, "caught_by": meta["caught_by"],
